@@ -8,6 +8,7 @@ import (
 	"math/rand"
 	"os"
 	"path/filepath"
+	"strings"
 	"time"
 
 	"github.com/thomasjungblut/go-sstables/recordio"
@@ -90,7 +91,7 @@ func wsGen(r *rand.Rand, thorough bool) wsCase {
 			cur += 1 + r.Intn(3)
 			op.Key = keyOf(cur)
 		}
-		op.VLen = pick(r, 0, 1, 5, 40, 300)
+		op.VLen = pick(r, 0, 1, 5, 40, 127, 128, 300, 16384)
 		op.Nil = r.Intn(6) == 0
 		if r.Intn(100) < failRate {
 			op.Fail = pick(r, "data", "index")
@@ -112,6 +113,9 @@ func keyOf(i int) string {
 	if i%5 == 0 {
 		s = s[:3]
 		s += string(rune('0' + i%10))
+	}
+	if i%7 == 3 {
+		s += strings.Repeat("k", 124+i%3) // key lengths 127..130: around the varint boundary
 	}
 	return s
 }
